@@ -25,6 +25,13 @@ CHECKS = {
     'C10': ('BOM wrapper of the Standard (sniff / remove / off) in TLA+; exhaustive matrix of prefixes x cut sets x modes x capacities for all 40 encodings validated call by call, encoding() checked at every call', '6 C10'),
     'C12': ('Standard decoder of the same encoding run by the monitor over the encoder output after every call (no error, round trip modulo the fold set, pending-state flag, ASCII at end)', '6 C12'),
     'C18': ('three converters in lockstep with different destination pre-fills; equality of observations is a monitor conjunct on every call', '6 C18'),
+    'C11': ('one-shot decode/encode events for all 40 encodings judged by the spec (BOM wrapper + Standard decode/encode with replacement, None iff malformed, borrow promise, aliasing); ASCII runs of every length 0..130 and large; streaming twin compared', '6 C11'),
+    'C13': ('get-an-encoding transcribed in TLA+ from the label fixture; every recorded for_label answer judged; single-edit neighbourhoods by set equality, case masks, paddings, cut-off strings, random strings', '6 C13'),
+    'C14': ('validators judged against TLA+ definitions of the longest valid prefix on recipe inputs (fills x lengths x defect classes x positions) at 16 alignments, with the SIMD validator on, forced off (hook) and in the simd-accel build', '6 C14'),
+    'C15': ('every mem conversion judged against the definitional result (lossy / None / partial-maximal / unmodified-beyond-written) on recipe inputs and destination lengths, default and simd-accel builds', '6 C15'),
+    'C16': ('classification and bidi checks judged against per-character definitions; is_char_bidi / is_utf16_code_unit_bidi exhaustively as exact range lists; default and simd-accel builds', '6 C16'),
+    'C17': ('Lockstep spec: one observer per build configuration on a deterministic corpus; TLC checks that all observation digests of each case are equal', '6 C17'),
+    'C20': ('metadata flags vs truth computed by TLC from Layer S and vs exhaustive sweeps of the same build; equality/hash matrices; name() resolves to self', '6 C20'),
     'C19': ('latin1_byte_compatible_up_to asked between calls of BOM-matrix / cut-set / random histories and judged against the Standard decoder state at the consumed position; twins without queries must agree', '6 C19'),
 }
 
@@ -33,9 +40,9 @@ m = {
     'setup_cmd': './check setup',
     'hooks': {
         'guard': 'hsivonen_encoding_rs_verif',
-        'enable': 'cargo feature hsivonen_encoding_rs_verif of encoding_rs (harness feature "hooks"); no hook commit exists yet - all current checks use the public API only',
+        'enable': 'cargo feature hsivonen_encoding_rs_verif of encoding_rs (harness built with --features hooks, run with --force-scalar); used by C14 and C17 only, all other checks use the public API without hooks',
         'baseline_off_cmd': 'cd /repo && cargo test --workspace --no-fail-fast --offline',
-        'source_commits': [],
+        'source_commits': ['c9f6364'],
         'add_only': True,
     },
     'engines': [
